@@ -1,6 +1,7 @@
 package core
 
 import (
+	"go/types"
 	"fmt"
 	"go/ast"
 	"go/scanner"
@@ -406,6 +407,9 @@ func RuleSiblings(r *Report, p *Prog, pkg, fileSuffix string, except map[string]
 				continue
 			}
 			keep = append(keep, m)
+			if fo, ok := pk.TypesInfo.Defs[m.Decl.Name].(*types.Func); ok {
+				r.Saw(p.FuncOf(fo))
+			}
 		}
 		g2 := &SiblingGroup{Key: g.Key, Members: keep}
 		members += len(keep)
